@@ -36,6 +36,7 @@ type Scenario struct {
 	Nchan   int    `json:"nchan"`  // channels (abaco: channels per group)
 	Groups  int    `json:"groups,omitempty"`
 	ExtTrig bool   `json:"exttrig,omitempty"` // abaco: external-trigger packets in the stream
+	Slow    bool   `json:"slow,omitempty"`    // abaco: 5 frames per second, so that one block spans several trigger-rate periods
 	Seed    uint64 `json:"seed"`              // perturbation seed (race runs)
 	Ops     []Op   `json:"ops"`
 }
@@ -63,7 +64,7 @@ const (
 	nsamp = 8
 )
 
-var quietOnce sync.Once
+var quietOnce, startupOnce sync.Once
 
 // Quiet silences dastard's loggers and standard output (the harness reports through files).
 func Quiet() {
@@ -86,7 +87,7 @@ const (
 	tsRate         = 1e8
 )
 
-func abacoPacket(off, nchan int, sn uint32) (*packets.Packet, error) {
+func abacoPacket(off, nchan int, sn uint32, slow bool) (*packets.Packet, error) {
 	d := make([]int32, fpp*nchan)
 	for f := 0; f < fpp; f++ {
 		for c := 0; c < nchan; c++ {
@@ -97,7 +98,11 @@ func abacoPacket(off, nchan int, sn uint32) (*packets.Packet, error) {
 			d[f*nchan+c] = v
 		}
 	}
-	ts := uint64(1000000 + int64(sn)*fpp*countsPerFrame)
+	cpf := int64(countsPerFrame)
+	if slow {
+		cpf = 20000000
+	}
+	ts := uint64(1000000 + int64(sn)*fpp*cpf)
 	return dastard.VerifMakeAbacoPacket(off, nchan, sn, false, d, ts, tsRate)
 }
 
@@ -132,7 +137,7 @@ func abacoScript(s Scenario, ticks int, repo string) ([]*dastard.VerifScriptedPr
 	sn := uint32(10)
 	for k := 0; k < 2; k++ { // two sampled packets per group: enough to learn the rate
 		for gi := 0; gi < g; gi++ {
-			p, err := abacoPacket(gi*s.Nchan, s.Nchan, sn)
+			p, err := abacoPacket(gi*s.Nchan, s.Nchan, sn, s.Slow)
 			if err != nil {
 				return nil, err
 			}
@@ -140,10 +145,14 @@ func abacoScript(s Scenario, ticks int, repo string) ([]*dastard.VerifScriptedPr
 		}
 		sn++
 	}
+	ppt := packetsPerTick
+	if s.Slow {
+		ppt = 8 // 32 frames = 6.4 s of frames per block
+	}
 	for t := 0; t < ticks; t++ {
-		for k := 0; k < packetsPerTick; k++ {
+		for k := 0; k < ppt; k++ {
 			for gi := 0; gi < g; gi++ {
-				p, err := abacoPacket(gi*s.Nchan, s.Nchan, sn)
+				p, err := abacoPacket(gi*s.Nchan, s.Nchan, sn, s.Slow)
 				if err != nil {
 					return nil, err
 				}
@@ -412,6 +421,9 @@ func Run(s Scenario, h Hooks, dir string, repo string) Outcome {
 		return r.out
 	}
 	r.ctl, r.sc = ctl, ctl.SC
+	// RunClientUpdater sleeps 250 ms before it serves its channel (ZMQ slow-joiner workaround); let it get
+	// there, otherwise the first messages of a run pile up in the channel and are handed over in one go
+	startupOnce.Do(func() { time.Sleep(300 * time.Millisecond) })
 	if h.Point != nil {
 		dastard.VerifSetPointHook(h.Point)
 		defer dastard.VerifSetPointHook(nil)
